@@ -114,3 +114,5 @@ clean:
 # ---- setup: everything a fresh restore needs ---------------------------------
 .PHONY: setup
 setup: cont $(B)/small/bin/eion $(B)/plain/bin/etl $(B)/plain/bin/efs $(B)/plain/bin/erng $(B)/small/bin/erhd $(B)/asan/bin/eion $(B)/asan/bin/erhd
+	@$(ROOT)/tools/determinism.sh 32 > $(B)/determinism.log 2>&1 || (cat $(B)/determinism.log; false)
+	@tail -3 $(B)/determinism.log
